@@ -834,6 +834,8 @@ func c05KindMapper(p *Pkg, w *strings.Builder) error {
 	type meth struct {
 		name                  string
 		touches, writes, lock bool
+		checks                bool     // an existence check of the kind (comma-ok read of a shared map) precedes the first write in the same body
+		calls                 []string // methods of the mapper it calls
 	}
 	var ms []meth
 	for _, f := range p.Files {
@@ -855,6 +857,46 @@ func c05KindMapper(p *Pkg, w *strings.Builder) error {
 				id, ok := sel.X.(*ast.Ident)
 				return ok && id.Name == recv && shared[sel.Sel.Name]
 			}
+			firstWrite, firstCheck := token.NoPos, token.NoPos
+			noteWrite := func(p token.Pos) {
+				if firstWrite == token.NoPos || p < firstWrite {
+					firstWrite = p
+				}
+			}
+			ast.Inspect(fd.Body, func(n ast.Node) bool {
+				switch x := n.(type) {
+				case *ast.AssignStmt:
+					// `_, ok := s.KindToID[kind]` / `if id, ok := s.KindToID[kind]; ok`
+					if len(x.Lhs) == 2 && len(x.Rhs) == 1 {
+						if ix, ok := x.Rhs[0].(*ast.IndexExpr); ok && isShared(ix.X) {
+							if firstCheck == token.NoPos || x.Pos() < firstCheck {
+								firstCheck = x.Pos()
+							}
+						}
+					}
+					for _, lhs := range x.Lhs {
+						if ix, ok := lhs.(*ast.IndexExpr); ok && isShared(ix.X) {
+							noteWrite(x.Pos())
+						}
+						if isShared(lhs) {
+							noteWrite(x.Pos())
+						}
+					}
+				case *ast.IncDecStmt:
+					if isShared(x.X) {
+						noteWrite(x.Pos())
+					}
+				case *ast.CallExpr:
+					if sel, ok := x.Fun.(*ast.SelectorExpr); ok {
+						if id, ok := sel.X.(*ast.Ident); ok && id.Name == recv {
+							m.calls = append(m.calls, sel.Sel.Name)
+						}
+					}
+				}
+				return true
+			})
+			m.checks = firstCheck != token.NoPos && firstWrite != token.NoPos && firstCheck < firstWrite
+			sort.Strings(m.calls)
 			ast.Inspect(fd.Body, func(n ast.Node) bool {
 				switch x := n.(type) {
 				case *ast.SelectorExpr:
@@ -890,7 +932,7 @@ func c05KindMapper(p *Pkg, w *strings.Builder) error {
 	}
 	sort.Slice(ms, func(i, j int) bool { return ms[i].name < ms[j].name })
 	fmt.Fprintf(w, "/-- pgutil.InMemoryKindMapper: per method, whether it touches / writes the shared fields (the two maps and the id counter) directly and whether it takes a lock of the struct -/\n")
-	fmt.Fprintf(w, "structure KMMethod where\n  name : String\n  touches : Bool\n  writes : Bool\n  holdsLock : Bool\nderiving Repr, DecidableEq\n")
+	fmt.Fprintf(w, "structure KMMethod where\n  name : String\n  touches : Bool\n  writes : Bool\n  holdsLock : Bool\n  checksBeforeWrite : Bool\n  calls : List String\nderiving Repr, DecidableEq\n")
 	fmt.Fprintf(w, "def kindMapperMutexFields : List String := %s\n", leanStrList(sortedKeys(mutexes)))
 	fmt.Fprintf(w, "def kindMapperSharedFields : List String := %s\n", leanStrList(sortedKeys(shared)))
 	w.WriteString("def kindMapperMethods : List KMMethod := [\n")
@@ -899,7 +941,7 @@ func c05KindMapper(p *Pkg, w *strings.Builder) error {
 		if i == len(ms)-1 {
 			sep = ""
 		}
-		fmt.Fprintf(w, "  ⟨%s, %v, %v, %v⟩%s\n", leanStr(m.name), m.touches, m.writes, m.lock, sep)
+		fmt.Fprintf(w, "  ⟨%s, %v, %v, %v, %v, %s⟩%s\n", leanStr(m.name), m.touches, m.writes, m.lock, m.checks, leanStrList(m.calls), sep)
 	}
 	w.WriteString("]\n")
 	return nil
